@@ -83,6 +83,10 @@ def check_entry(rep, prog, thorough):
         cases.append(mk_entry(ln, trailer=16 + ln + ((4 - ln % 4) % 4)))   # size without the trailer itself
         cases.append(mk_entry(ln, trailer=0))
     cases += [b"", b"\x00" * 7, b"\xff" * 20]
+    # every fixed field at the top of its range (all are unsigned) and at zero
+    cases += [mk_entry(4, tbh=0xFFFF, tbl=0xFFFF, tag=0xFFFF, hv=0xFFFFFFFF, line=0xFFFFFFFF),
+              mk_entry(8, tbh=0x8000, tbl=0x8001, tag=0x8002, hv=0x80000003, line=0x80000004),
+              mk_entry(0, tbh=0, tbl=0, tag=0, hv=0, line=0)]
     if thorough:
         for ln in range(0, 40):
             g = mk_entry(ln)
@@ -141,6 +145,11 @@ def check_header(rep, prog):
                     bad = bad or "header field %s decoded as %r, stored %r" % (k, ev(a[k], buf), v)
             if ev(I.obj(st).attrs["index"], buf) != 32:
                 bad = bad or "header consumes %r bytes" % ev(I.obj(st).attrs["index"], buf)
+    # every numeric header field is unsigned: a header with the top bit set in each of them
+    hi = bytes([0x82, 0xA0, 0x81, 0xC2]) + b"FANS" + b"\0" * 8 + b"\xde\xad\xbe\xef" + struct.pack(">III", 0xFFFFFFF0, 0x80000007, 0x80000200)
+    for k, v in dict(ver=0x82, hdr_len=0xA0, time_flg=0x81, endian_flg=0xC2, size=0xFFFFFFF0, times_wrap=0x80000007, next_free=0x80000200).items():
+        if ev(a[k], hi) != v:
+            bad = bad or "header field %s decoded as %r, stored %r" % (k, ev(a[k], hi), v)
     comp = a.get("comp")
     okc = any(pelx.as_slice(x) == (Const(4), Const(16)) for x in walk(comp))
     # the component name as a function of the header bytes, evaluated: ASCII text of bytes 4..15 with bytes >= 0x80 dropped
@@ -434,6 +443,15 @@ def check_rendering(rep, prog):
     tstr0 = Op("m:get_trace_string", sfile, syms["hash_value"])
     found0 = compare("isnot", tstr0, NONE)
     okgm = bool(gm) and any(implies(found0, e.guard)[0] for e in gm)
+    if bool(gm) and not okgm:
+        # (computing the arguments first may raise - e.g. a range check the analysis cannot prove dead: "no exception so far"
+        # is not a condition on the entry)
+        for e in gm:
+            raised = or_(*[x.guard for x in I.events if x.kind == "raise" and x.seq < e.seq])
+            cj = e.guard.args if isinstance(e.guard, Op) and e.guard.op == "and" else (e.guard,)
+            noexc = {not_(g_) for g_ in getattr(I, "raise_conds", ())}
+            if all(implies(found0, c)[0] or c in noexc or implies(and_(found0, not_(c)), raised)[0] for c in cj):
+                okgm = True
     rep.check(okgm, rule, "whenever a trace string is found its message is produced by get_message(arguments)", TR + "_format_trace_entry",
               "trace_string.get_message(args)", "the message of a found trace string is not always produced by get_message() (it is skipped under "
               "%s): format strings without arguments keep their '%%%%' escapes" % ([repr(e.guard)[:100] for e in gm][:1],))
@@ -494,6 +512,6 @@ def run(rep, prog, thorough):
     check_strings(rep, prog)
     check_rendering(rep, prog)
     from ..effects import check_text_decoding
-    check_text_decoding(rep, prog, "C15.R5.string-lookup", "io_drawer.trace", "the trace string file")
+    check_text_decoding(rep, prog, "C15.R5.string-lookup", "io_drawer", "a definition file of the IO drawer decoders")
     from ..effects import check_no_memoised
     check_no_memoised(rep, prog, 'C15.R5.string-lookup', ['io_drawer'], 'the trace strings of an earlier decode are reused although the string file given now may differ')
